@@ -148,7 +148,14 @@ def _materials(desc):
     m = desc["material"]
     if isinstance(m, str):
         return BUILTIN[m], get_hk_model(m), m
-    return dict(m), dict(m), dict(m)
+    # a user dictionary is keyed by name: the order in which its keys were written means nothing
+    return dict(m), _reorder(m, desc.get("key_order", 0)), _reorder(m, desc.get("key_order", 0))
+
+
+def _reorder(d, how):
+    keys = list(d)
+    keys = {0: keys, 1: keys[::-1], 2: sorted(keys), 3: sorted(keys, reverse=True)}[how % 4]
+    return {k: d[k] for k in keys}
 
 
 def _fam(model):
@@ -663,7 +670,7 @@ def check_isotherm(desc, ctx):
         p_limits = (p_lo, p_hi)
     kwargs = dict(psd_model=model, pore_geometry=geometry, material_model=mat_iso, p_limits=p_limits)
     if not registry_model:
-        kwargs["adsorbate_model"] = ads
+        kwargs["adsorbate_model"] = _reorder(ads, desc.get("key_order", 0))
     try:
         with recording() as rec:
             res = pm.psd_microporous(iso, **kwargs)
@@ -731,12 +738,12 @@ def _targets(max_n, min_n=3):
 
 def _base(max_n=7, models=rh.MODELS, geometries=rh.GEOMETRIES, min_n=3):
     return st.builds(
-        lambda model, geo, T, mat, ads, ul, kappa, zero, dip: {
+        lambda model, geo, T, mat, ads, ul, kappa, zero, dip, ko: {
             "model": model, "geometry": geo, "T": T, "material": mat, "adsorbate": ads, "u": ul[0], "dload": ul[1],
-            "plateau": kappa, "zero_first": zero, "dip": dip},
+            "plateau": kappa, "zero_first": zero, "dip": dip, "key_order": ko},
         st.sampled_from(list(models)), st.sampled_from(list(geometries)), st.floats(70.0, 300.0), _material(),
         _adsorbate(), _targets(max_n, min_n), _logu(0.05, 20.0), st.sampled_from([False] * 7 + [True]),
-        st.sampled_from([False, True]))
+        st.sampled_from([False, True]), st.sampled_from([0, 0, 1, 2, 3]))
 
 
 def strat_solves():
